@@ -26,6 +26,8 @@ LIMITS = {
     # A/S and two labware with much wider limits (B/U) are constructed from one and the same float64 array
     # objects, which the caller later re-uses: nothing done to B, U or the arrays may move a well of A or S
     "alias": (10, 100, 50),
+    # the plate is an instance of a user subclass of Labware that overrides a public hook (no composition tracking)
+    "subclass": (10, 100, 50),
 }
 BULK = ("mid", "third", "dec_hi2", "empty")  # configurations with a 4 x 4 plate for calls that name 17 and more wells
 assert 0.6 + (1.7 - 0.6) > 1.7 and 32.02 + (100.2 - 32.02) > 100.2 and 0.39 - (0.39 - 0.1) < 0.1
@@ -105,7 +107,7 @@ class Harness(cm.BaseA):
             out.append(
                 {
                     "limits": name,
-                    "labware": [plate("A", 2, 1, mn, mx, init), trough("S", 2, 2, mn, mx, [init, init])] + ([plate("G", 4, 4, mn, mx, init)] if name in BULK else [])
+                    "labware": [dict(plate("A", 2, 1, mn, mx, init), **({"subclass": "nocomp"} if name == "subclass" else {})), trough("S", 2, 2, mn, mx, [init, init])] + ([plate("G", 4, 4, mn, mx, init)] if name in BULK else [])
                     if name not in ("f32", "i64")
                     else [
                         dict(plate("A", 2, 1, mn, mx, [[init], [init]]), np="float32" if name == "f32" else "int64"),
@@ -287,6 +289,8 @@ class Harness(cm.BaseA):
     def core_events(self, W, config):
         if W["rejected"] >= 2:
             return []
+        if config["limits"] in ("subclass", "i64", "tiny") and W.get("n", 0) >= 1 and getattr(self, "tier", "quick") == "quick":
+            return []  # quick tier: these configurations are explored one level less deep
         return self.events(W, config, False)
 
     def full_events(self, W, config):
@@ -320,6 +324,7 @@ class Harness(cm.BaseA):
         geos = cm.geos(config)
         pre = {n: lw.volumes for n, lw in W["lw"].items()}
         prekey = self.canon(W, config)
+        W["n"] = W.get("n", 0) + 1
         out, exc = exec_event(W, ev)
         for wl in W["wl"].values():
             del wl[:]
